@@ -507,6 +507,35 @@ def g_collections(ctx, rng, i):
             _same(ctx, c, e, "join(s,p,q) != join(join(s,p),q)", [s, p, q])
 
 
+def g_ragged(ctx, rng, i):
+    """operands with different numbers of collection axes (aligned from the right): (k,) against (2,3,k), (3,k) against (2,3,k), (k,) against (3,k),
+    both orders, 2D and 3D, join and meet, also three operands."""
+    g = G()
+    n = 3 if i % 2 == 0 else 4
+    mode = MODES[(i // 2) % len(MODES)]
+    k = [4, 2, 3][(i // 4) % 3]
+    big = [(2, 3, k), (3, 2, k), (2, 2, k)][(i // 12) % 3]
+    p, q = _coll(rng, n, big, mode, 2)
+    lows = [p[0, 0], p[0], p[1, :1]]  # shapes (k,), (b, k), (1, k)
+    low = lows[(i // 3) % 3]
+    bq = np.broadcast_to(low, q.shape)
+    if not all(_indep(x, y) for x, y in zip(bq.reshape(-1, n), q.reshape(-1, n))):
+        return
+    for A, B in ((g.PointCollection(low), g.PointCollection(q)), (g.PointCollection(q), g.PointCollection(low))):
+        a = _lib(ctx, g.join, A, B, what="join(collections with different numbers of axes)")
+        if a is not None and n == 3:
+            a.contains(g.PointCollection(q))
+    if n == 3:
+        _lib(ctx, g.meet, g.LineCollection(low), g.LineCollection(q), what="meet(line collections with different numbers of axes)")
+        _lib(ctx, g.meet, g.LineCollection(q), g.LineCollection(low), what="meet(line collections with different numbers of axes)")
+    else:
+        _lib(ctx, g.meet, g.PlaneCollection(low), g.PlaneCollection(q), what="meet(plane collections with different numbers of axes)")
+        r = _rand_vec(rng, 4, "int")
+        if all(X.rank([X.vec(x), X.vec(y), X.vec(r)]) == 3 for x, y in zip(bq.reshape(-1, n), q.reshape(-1, n))):
+            _lib(ctx, g.join, g.PointCollection(low), g.Point(r), g.PointCollection(q), what="join(collection, point, larger collection)")
+            _lib(ctx, g.join, g.Point(r), g.PointCollection(low), g.PointCollection(q), what="join(point, collection, larger collection)")
+
+
 def g_large(ctx, rng, i):
     """Large collections (64 ... 1000 positions, one and two axes; a single object against them): whatever path the size of the arrays
     selects, every position holds the span / intersection of its operands."""
@@ -589,6 +618,7 @@ GROUPS = [
     {"name": "lattice3d", "fn": g_lattice3d, "quick": 80 * 80, "thorough": 80 * 80},
     {"name": "random", "fn": g_random, "quick": 1440, "thorough": 14400},
     {"name": "collections", "fn": g_collections, "quick": 864, "thorough": 8640},
+    {"name": "ragged", "fn": g_ragged, "quick": 432, "thorough": 4320},
 ]
 
 
